@@ -134,7 +134,7 @@ def gen(rng, tier):
             if f["cols"][2] == "transcript":
                 f["cols"][2] = rng.choice(["mRNA", "ncRNA", "transcript"])
     return {"feats": feats, "custom": custom, "kw": kw, "form": rng.choice(["path", "string", "list", "gen"]), "shared": shared,
-            "tx_types": tx_types,
+            "tx_types": tx_types, "failed_update_probe": rng.random() < 0.2,
             "after": rng.choice(["none", "reopen", "restart", "restart"]), "fault": fault, "updates": updates, "pair": pair,
             "base_no_trailing_semicolon": rng.random() < 0.35,
             # no two lines of these inputs share a key, so every strategy must give the same database
@@ -356,6 +356,9 @@ def run(case):
                         probes["update_adds_transcript_to_stored_gene"] = 1
                     if not check(model, case, du["dump"], V, "after update #%d (%s%s)" % (ui, upd["kind"], ", retried after a source failure" if upd.get("fail_first_at") is not None else "")):
                         break
+                if not V and case.get("failed_update_probe") and not case.get("custom") and not case.get("shared") and not case.get("tx_types"):
+                    from sim.probes import failed_update_probe
+                    failed_update_probe(w, call, node, "h", "a.db", True, V, viol, "C03.update", probes)
                 if V:
                     pass
                 elif case["after"] == "reopen":
